@@ -30,6 +30,7 @@ type opts struct {
 	upto   int
 	maxk   int
 	probes bool
+	x      bool
 }
 
 var show = os.Getenv("DML_SHOW") != ""
@@ -47,6 +48,7 @@ func main() {
 	flag.IntVar(&o.upto, "upto", -1, "with -only: stop after the statement with this id")
 	flag.IntVar(&o.maxk, "maxk", 12, "c15: largest fault position enumerated per statement")
 	flag.BoolVar(&o.probes, "probes", true, "issue the index probes")
+	flag.BoolVar(&o.x, "x", false, "c15 gen: the foreign-key / trigger histories (fault enumeration over cascades and trigger targets)")
 	flag.Parse()
 	w, err := vio.NewWriter(o.out)
 	if err != nil {
